@@ -20,3 +20,8 @@ pub fn explode_withdrawals(
 }
 
 pub use crate::units::bgp_tcp_in::verif::*;
+/// The same UPDATE arriving inside a BMP Route Monitoring message: the routes
+/// (with the status of their context) of the `Update::Bulk` the BMP state
+/// machine emits.
+pub use crate::units::bmp_tcp_in::verif_update::route_monitoring as bmp_route_monitoring;
+pub use rotonda_store::prelude::multi::RouteStatus;
